@@ -17,6 +17,9 @@ TRUSTED = [
     "soft errors, fetch streams), real proxyapi Search/ComplexSearch handlers through the add-only export "
     "VerifC16NewGrpcV1, canonicalisation of source numbers through VerifC16SourceByClient",
     "sort.Sort enters the theorems as an arbitrary function returning a sorted permutation",
+    "hand-written model props/C16/coq/ModelRetain.v of OldestCT after FracManager.shrinkSizes (GetOldestFrac over the remaining "
+    "fractions); harness/cmd/hC16/retain.go drives a real FracManager through harness/internal/fracbuild and the add-only exports "
+    "VerifC15SetTotalSize / VerifC15ShrinkSizes (creation times are wall-clock and are rank-compressed before they enter a case)",
     "hand-written model props/C16/coq/ModelDeadline.v of the request context in logical time: a client.Search call on a done "
     "context fails at once, a call still running at the expiry fails then (searchHost), searchShard treating that as a replica "
     "error, searchStores' receive loop over the ShardResponses in arrival order (which errors return at once, which are collected, "
@@ -65,7 +68,14 @@ RULE = ("exhaustive: hot tier 2 shards x 2 replicas, all 5^4 behaviour assignmen
         "wants-old, too-many-fractions, too-many-uniq}, a random order of availability, stores that never answer, expiry before "
         "everything / between any two availabilities / after everything / never, size 0 on a third, histograms and aggregation "
         "queries, invalid requests; impl output compared with the timed model and checked against the untimed specification over "
-        "the stores that really answered: complete only if every shard had an answering replica. non-trivial = a search script with at "
+        "the stores that really answered: complete only if every shard had an answering replica. REPLICA REFUSAL KINDS: an error "
+        "replica of every shard / tier / sequence / deadline class refuses with Unavailable, a plain error, gRPC status "
+        "DeadlineExceeded or Canceled, or the plain values context.DeadlineExceeded / context.Canceled - a deadline of the STORE'S OWN "
+        "while the request context is alive (exhaustive family: all five kinds at every position); the model treats them all as ordinary "
+        "replica errors (the next replica is tried). RETENTION (CRetain): a real FracManager with 3-5 sealed fractions created >= 5 ms "
+        "apart, one real shrinkSizes pass truncating k = 0..n of them: OldestCT must be the creation time of the oldest REMAINING "
+        "fraction and the real earlierThanOldestFrac verdict for from = ct-1, ct, ct+1 of every fraction must be the model's (times "
+        "replaced by their rank). non-trivial = a search script with at "
         "least one non-ok replica / a fetch of >= 2 IDs / Documents of >= 2 IDs on >= 2 stores / a CFds request of >= 2 IDs / a merge of >= 2 answers / a page script with a non-ok replica or a failing fetch call / a request-context script whose context expired while a hot shard had not answered or with a non-ok replica; "
         "distinct by script")
 
